@@ -5,6 +5,7 @@ package strings
 
 import (
 	"math/rand"
+	"sort"
 	"strings"
 	"sync"
 	"time"
@@ -156,4 +157,15 @@ func HasRegex(s string) (bool, string) {
 		return true, s[1:lastIdx]
 	}
 	return false, s
+}
+
+// SortedKeys returns the keys of m in lexical order. It is used wherever a Go
+// map has to be walked in an order that must not change from run to run.
+func SortedKeys[V any](m map[string]V) []string {
+	keys := make([]string, 0, len(m))
+	for k := range m {
+		keys = append(keys, k)
+	}
+	sort.Strings(keys)
+	return keys
 }
